@@ -36,3 +36,111 @@ package splunk
 //@     requires s == "{}" && nenc == 1 && nreset == 0
 //@     pure
 //@     set nreset := nreset + 1
+
+// out (C19): the request body is what the ForEach callback built for THIS batch and
+// nothing else.  The per-worker buffer is restarted at length 0 before the batch
+// is walked (nothing of an earlier batch is resent, whatever the buffer held),
+// Batch.ForEach is called once, on the batch handed in and before the root the
+// callback works in is released (once), and the one request of this call carries exactly the buffer as ForEach
+// left it (same block, same offset, same length).  fref / foff / flen are logical
+// variables: the call-site ensures of ForEach *names* the buffer at its return (a
+// definition, sound because ForEach is called at most once: requires nfe == 0).
+// Together with Batch.ForEach's contract (callback exactly for the deliverable
+// events, in index order) and the callback's contract above (one encoding appended
+// per call, root reset) this is "every deliverable event exactly once, in order".
+//
+// (bref names the batch handed in, so that re-assigning the parameter does not help.)
+//
+// Result: success is reported only after the one request was made (at most one per
+// call), and then only if it was accepted - or answered 400, the status upstream
+// treats as non-retryable (the same mapping is an OPEN finding for the Elasticsearch
+// output under C09) - or when there was nothing to send (empty body).  An accepted
+// request is never reported as failed (it would be resent: duplicates).
+// The response body of an accepted status goes through a non-nil checker.
+
+//@ func (*Plugin).out
+//@   option allow-exit yes
+//@   ghost nfe int = 0
+//@   ghost nsend int = 0
+//@   ghost nrel int = 0
+//@   ghost fref int
+//@   ghost foff int
+//@   ghost flen int
+//@   ghost bref int
+//@   ghost acc bool = false
+//@   ghost gcode int = 0
+//@   requires bref == ref(batch)
+//@   requires p.config.BatchSize_ >= 0 && p.config.BatchSize_ * p.avgEventSize >= 0
+//@   requires workerData != nil && (isnil(*workerData) || typeis(*workerData, "*github.com/ozontech/file.d/plugin/output/splunk.data"))
+//@   ensures nfe == 1 && nrel == 1
+//@   ensures isnil(result) ==> (nsend == 1 && (acc || gcode == 400)) || (nsend == 0 && flen == 0)
+//@   ensures acc ==> isnil(result)
+//@   callee Spawn() (r)
+//@     pure
+//@   callee ForEach(cb)
+//@     requires ref(recv) == bref && nfe == 0 && nrel == 0 && nsend == 0
+//@     requires len(outBuf) == 0
+//@     set nfe := nfe + 1
+//@     ensures fref == ref(outBuf) && foff == off(outBuf) && flen == len(outBuf)
+//@   callee Release(r)
+//@     requires nfe == 1 && nrel == 0
+//@     pure
+//@     set nrel := nrel + 1
+//@   callee Debugf(f, a)
+//@     pure
+//@   callee DoTimeout(method, ct, body, timeout, fn) (code, err)
+//@     requires nfe == 1 && nsend == 0
+//@     requires ref(body) == fref && off(body) == foff && len(body) == flen
+//@     requires method == "POST" && !isnil(fn)
+//@     pure
+//@     set nsend := nsend + 1
+//@     set acc := isnil(err)
+//@     set gcode := code
+//@   callee WithLabelValues(l)
+//@     pure
+//@   callee Inc()
+//@     pure
+//@   callee Errorf(f, a)
+//@     pure
+//@   callee Error() (s)
+//@     pure
+
+// parseSplunkError (C19, "out reports success only if the send succeeded"): the
+// checker of a 2xx answer's body.  A body that does not decode, has no "code"
+// field, or carries a positive Splunk status code (5 no data, 6 invalid data
+// format, 9 server busy, ...) is an error - never success; the success answer
+// {"text":"Success","code":0} is not an error (it would make the retry loop resend
+// a delivered batch).  derr / hascode / cv are what the insane-json calls returned
+// (third-party: their results are the unknowns of this contract).  The decoded
+// root is released exactly once on every path, after the last use of its nodes.
+
+//@ func parseSplunkError
+//@   ghost ndec int = 0
+//@   ghost nrel int = 0
+//@   ghost ndig int = 0
+//@   ghost derr bool = false
+//@   ghost hascode bool = false
+//@   ghost cv int = 0
+//@   ensures ndec == 1 && nrel == 1
+//@   ensures derr ==> !isnil(result)
+//@   ensures !derr && !hascode ==> !isnil(result)
+//@   ensures !derr && hascode && cv > 0 ==> !isnil(result)
+//@   ensures !derr && hascode && cv == 0 ==> isnil(result)
+//@   callee DecodeBytes(b) (r, e)
+//@     requires ndec == 0 && ref(b) == ref(data) && off(b) == off(data) && len(b) == len(data)
+//@     pure
+//@     set ndec := ndec + 1
+//@     set derr := !isnil(e)
+//@   callee Dig(path) (n)
+//@     requires ndec == 1 && !derr && nrel == 0 && ndig == 0 && len(path) == 1 && path[0] == "code"
+//@     pure
+//@     set ndig := ndig + 1
+//@     set hascode := n != nil
+//@   callee AsInt() (v)
+//@     requires hascode && nrel == 0
+//@     pure
+//@     set cv := v
+//@   callee Release(r)
+//@     requires ndec == 1 && nrel == 0
+//@     pure
+//@     set nrel := nrel + 1
